@@ -16,10 +16,14 @@ pub struct HdrSpec {
     /// bytes appended to the store that no entry refers to
     pub trailing: Vec<u8>,
     pub shuffle_seed: Option<u64>,
+    /// with a region: the last `dribbles` items are index entries BEHIND the region (their data
+    /// follows the region trailer, the trailer covers fewer entries than the intro announces)
+    pub dribbles: usize,
 }
 
 pub fn enc_spec(s: &HdrSpec) -> Vec<u8> {
     let (mut entries, mut store) = match s.region {
+        Some(t) if s.dribbles > 0 => layout_with_region_and_dribbles(t, &s.items, s.dribbles),
         Some(t) => layout_with_region(t, &s.items),
         None => layout(&s.items),
     };
@@ -34,7 +38,7 @@ pub fn enc_spec(s: &HdrSpec) -> Vec<u8> {
         let start = first_item;
         r.shuffle(&mut entries[start..]);
     }
-    if s.region.is_some() && (!s.aliases.is_empty()) {
+    if s.region.is_some() && (!s.aliases.is_empty()) && s.dribbles == 0 {
         // keep the region trailer consistent with the final entry count
         let il = entries.len() as i32;
         let off = entries[0].offset as usize;
@@ -116,14 +120,16 @@ pub fn rand_spec(r: &mut Rng, pool: &[u32], region: u32) -> HdrSpec {
         let typ = r.below(10) as u32;
         items.push((d, rand_val(r, typ)));
     }
-    let aliases = if r.chance(1, 4) && !items.is_empty() { vec![(rand_tag(r, pool), r.usize(items.len()))] } else { vec![] };
+    let dribbles = if r.chance(1, 5) && !items.is_empty() { 1 + r.usize(items.len().min(3)) } else { 0 };
+    let aliases = if dribbles == 0 && r.chance(1, 4) && !items.is_empty() { vec![(rand_tag(r, pool), r.usize(items.len()))] } else { vec![] };
     HdrSpec {
         reserved: if r.chance(1, 3) { [r.next() as u8, r.next() as u8, r.next() as u8, r.next() as u8] } else { [0; 4] },
         items,
         region: if r.bool() { Some(region) } else { None },
         aliases,
         trailing: if r.chance(1, 3) { let k = r.usize(9); r.bytes(k) } else { vec![] },
-        shuffle_seed: if r.chance(1, 3) { Some(r.next()) } else { None },
+        shuffle_seed: if dribbles == 0 && r.chance(1, 3) { Some(r.next()) } else { None },
+        dribbles,
     }
 }
 
